@@ -380,6 +380,61 @@ static uint32_t mix32(uint32_t x)
     x ^= x >> 16;
     return x;
 }
+// comparator of the "return a - b" kind over 32-bit keys stored at the front of the element: its results are large
+// in magnitude (tens of thousands, multiples of 65536), all within int
+static int cmp_int_diff(const void *a, const void *b)
+{
+    const char *pa = (const char *)a, *pb = (const char *)b;
+    for (const char *p : {pa, pb})
+        if (p >= g_base && p < g_base + g_n * g_size && (size_t)(p - g_base) % g_size != 0)
+            g_bad_ptr = true;
+    int32_t ka, kb;
+    memcpy(&ka, a, 4);
+    memcpy(&kb, b, 4);
+    return ka - kb;
+}
+static void t_qsort_diffcmp(Src &s, Case &c)
+{
+    size_t n = (size_t)(s.coin() ? s.range(0, 12) : s.range(0, 120));
+    size_t size = (size_t)s.range(4, 12);
+    int32_t stride = (int32_t)s.pick({1, 40000, 65536, 131072, 32768, 100000});
+    int keyrange = (int)s.pick({2, 3, 7, 64});
+    unsigned seed = s.u16();
+    Exact arr(n * size);
+    for (size_t i = 0; i < n; i++)
+    {
+        uint8_t *e = arr.p + i * size;
+        int32_t key = ((int32_t)s.below((uint64_t)keyrange) - keyrange / 2) * stride;
+        memcpy(e, &key, 4);
+        for (size_t j = 4; j < size; j++)
+            e[j] = (uint8_t)(i * 7 + j);
+    }
+    std::vector<std::string> before;
+    for (size_t i = 0; i < n; i++)
+        before.emplace_back((const char *)arr.p + i * size, size);
+    c.log("qsort n=%zu size=%zu comparator=a-b keys = k*%d, k in %d values, srand=%u", n, size, stride, keyrange, seed);
+    c.nontrivial = n >= 4 && stride >= 32768;
+    c.label(stride >= 32768 ? "comparator_results_beyond_16_bits" : "small_comparator_results");
+    g_size = size;
+    g_n = n;
+    g_base = arr.c();
+    g_bad_ptr = false;
+    igc_srand(seed);
+    igc_qsort(arr.p, n, size, cmp_int_diff);
+    VP_CHECK(!g_bad_ptr, "qsort_cmp_ptr", "comparator called with a pointer inside the array that is not on an element boundary");
+    for (size_t i = 0; i + 1 < n; i++)
+        VP_CHECK(cmp_int_diff(arr.p + i * size, arr.p + (i + 1) * size) <= 0, "qsort_order", "elements %zu and %zu out of order", i, i + 1);
+    std::vector<std::string> after;
+    for (size_t i = 0; i < n; i++)
+        after.emplace_back((const char *)arr.p + i * size, size);
+    std::sort(before.begin(), before.end());
+    std::sort(after.begin(), after.end());
+    VP_CHECK(before == after, "qsort_permutation", "output is not a permutation of the input (element dropped, duplicated or altered)");
+}
+VP_TARGET("qsort_diffcmp", t_qsort_diffcmp,
+          "qsort with a subtracting comparator (return a - b over 32-bit keys that are multiples of 1, 32768, 40000, 65536, 100000 or 131072): any consistent weak order is a valid "
+          "comparator, whatever the magnitude of its results; same oracle as qsort; non-trivial = n >= 4 and results beyond 16 bits");
+
 static void t_qsort_large(Src &s, Case &c)
 {
     size_t n, size;
